@@ -4,6 +4,7 @@ import (
 	"github.com/aperturerobotics/bifrost/crypto"
 	"github.com/aperturerobotics/bifrost/peer"
 	rt "github.com/aperturerobotics/bifrost/zz_verifrt"
+	b58 "github.com/mr-tron/base58/base58"
 )
 
 // c38ValidUTF8 is Unicode Table 3-7 (well-formed UTF-8 byte sequences) for strings of <= 4 bytes.
@@ -133,6 +134,28 @@ func VerifC38PeerID() {
 	rid, _ := peer.IDFromPublicKey(pk)
 	back, err3 := ParsePeerID(rid.String())
 	rt.Assert("identity id text round trip", err3 == nil && back == rid)
+	rt.Reach("end")
+}
+
+// VerifC38PeerIDRaw: text that is valid base58 of arbitrary bytes (including over-long and overflowing
+// varints in the multihash header) is either rejected with an error or accepted as exactly those
+// bytes; parsing never panics.
+func VerifC38PeerIDRaw() {
+	n := 11
+	if rt.Tier() > 0 {
+		n = 13
+	}
+	raw := rt.Bytes("raw", 1, n)
+	s := b58.Encode(raw)
+	id, err := ParsePeerID(s)
+	if err == nil {
+		rt.Reach("accepted")
+		rt.Assert("accepted text decodes to the encoded bytes", rt.BytesEq([]byte(id), raw))
+		rt.Assert("accepted text re-formats to itself", id.String() == s)
+	} else {
+		rt.Reach("rejected")
+	}
+	rt.Assert("ValidatePeerID agrees with ParsePeerID", (ValidatePeerID(s) == nil) == (err == nil))
 	rt.Reach("end")
 }
 
